@@ -132,6 +132,16 @@ package dbft
 //@      && implies(self.preHeader != nil, self.PreparationPayloads[self.PrimaryIndex] != nil && amev())
 //@      && (self.preBlock == nil || self.preBlock == self.preHeader)
 
+// checkConfig is what New runs on the assembled configuration: when it accepts, the callbacks it looks at are present
+// (the other callbacks have non-nil defaults; an option that sets one of them to nil is outside A4).
+//@ func checkConfig
+//@   ensures [C11] @requiredCallbacks implies(result == nil, cfg.GetKeyPair != nil && cfg.Timer != nil && cfg.CurrentHeight != nil && cfg.CurrentBlockHash != nil
+//@        && cfg.GetValidators != nil && cfg.NewBlockFromContext != nil && cfg.NewConsensusPayload != nil && cfg.NewPrepareRequest != nil
+//@        && cfg.NewPrepareResponse != nil && cfg.NewChangeView != nil && cfg.NewCommit != nil && cfg.NewRecoveryRequest != nil && cfg.NewRecoveryMessage != nil)
+//@   ensures [C11,C07] @antiMEVCallbacks implies(result == nil && cfg.AntiMEVExtensionEnablingHeight >= 0, cfg.NewPreBlockFromContext != nil && cfg.ProcessPreBlock != nil && cfg.NewPreCommit != nil)
+//@   ensures [C11,C16] @subscriptionPair implies(result == nil, (cfg.MaxTimePerBlock == nil) == (cfg.SubscribeForTxs == nil))
+//@   modifies nothing
+
 // ---- C06 ----
 
 //@ func (*Context).N
